@@ -701,8 +701,14 @@ func (g *G) block(depth int, firstInItem bool, marker byte) Block {
 			if coin(g.s, 1, 10) {
 				// a line that looks like a link reference definition but is not one: an unbalanced '(' in the
 				// destination, text after the title, a label of 1000 characters; and '</ div>', which is no tag
-				nd := []string{"[zzr]: (b", "[zzr]: /u(", "[zzr]: b(c 't'", "[zzr]: /u 't' x", "[" + strings.Repeat("a", 1000) + "]: /u", "</ div>", "</ a>", "</a/>", "</x-y />"}[g.s.Intn(9)]
+				nd := []string{"[zzr]: (b", "[zzr]: /u(", "[zzr]: b(c 't'", "[zzr]: /u 't' x", "[" + strings.Repeat("a", 1000) + "]: /u", "</ div>", "</ a>", "</a/>", "</x-y />", "<pre\fx>", "<script\fy>"}[g.s.Intn(11)]
 				nearDefCount++
+				if coin(g.s, 1, 5) {
+					// a tag whose name is not in the condition-6 list, followed by text: a paragraph with inline raw
+					// HTML (meta was removed from the list in 0.29; the others are near misses of listed names)
+					tag := []string{"<meta charset=\"x\">", "<meta>", "<divx>", "<h7>", "<sectionx a='b'>", "<source src=x>"}[g.s.Intn(6)]
+					return Para{[]Inline{Raw{tag}, Text{" "}, Emph{[]Inline{Text{g.word()}}}}}
+				}
 				if coin(g.s, 1, 4) {
 					// a closing tag of pre / script / style / textarea alone on its line is no HTML block start
 					// (condition 7 excludes these names): a paragraph holding inline raw HTML
